@@ -292,3 +292,36 @@ def ref_del(t, path, recursively=False):
             else:
                 break
     return t
+
+
+# ---- exhaustive small scope (thorough tier) --------------------------------------------------------
+def all_trees(nodes, keys=("a", "b"), leaves=(1, "x"), root=None):
+    """every tree with exactly `nodes` nodes: leaves from `leaves`, dicts over ordered subsets of `keys`
+    (a dict's children in key order of the subset's order), lists of up to 3 items"""
+    import itertools
+    if nodes <= 0:
+        return
+    if root is None and nodes == 1:
+        for lf in leaves:
+            yield lf
+    if root in (None, "dict"):
+        for r in range(0, len(keys) + 1):
+            for ks in itertools.permutations(keys, r):
+                for parts in _compositions(nodes - 1, r):
+                    for kids in itertools.product(*[list(all_trees(n, keys, leaves)) for n in parts]):
+                        yield dict(zip(ks, kids))
+    if root in (None, "list"):
+        for r in range(0, 4):
+            for parts in _compositions(nodes - 1, r):
+                for kids in itertools.product(*[list(all_trees(n, keys, leaves)) for n in parts]):
+                    yield list(kids)
+
+
+def _compositions(total, parts):
+    if parts == 0:
+        if total == 0:
+            yield ()
+        return
+    for first in range(1, total - parts + 2):
+        for rest in _compositions(total - first, parts - 1):
+            yield (first,) + rest
